@@ -4,7 +4,7 @@ import os
 
 VERIF = os.path.dirname(os.path.dirname(os.path.abspath(__file__)))
 
-HOOK_COMMITS = []
+HOOK_COMMITS = ["477417ba"]
 
 CHECKS = {
     "C01": dict(
@@ -55,6 +55,22 @@ CHECKS = {
         note="Trusted: TLC; HpkeData/HpkeSha256/AesAead/ChaChaPoly transcriptions (pinned by RFC 9180 A.1.1, FIPS 180-4, RFC 4231 and the AEAD vectors). The DH output is "
              "taken from the trace (C06). For SHA-384/512 suites only channel behaviour is judged, under the ideal-AEAD assumption.",
         technique="TLA+ channel model checked exhaustively by TLC; spec->code replay of adversarial histories; code->spec trace validation with RFC 9180 transcribed in TLA+",
+    ),
+    "C19": dict(
+        category="model_checking",
+        text="sys/CurveRegistry (shaped like _Curves.__getitem__: re-entrant lock with owner/depth, absent->loaded->has_g->ready, the re-entrant call made by the "
+             "generator's constructor) is model-checked exhaustively for 3 threads x 2 curves x 2 calls: mutual exclusion, loaded once, no caller other than the "
+             "loader observes a partially initialised curve, stuck-freedom, and every call returns under weak fairness; the plain-lock and lock-free variants are "
+             "shown to violate it. Schedules TLC generates from the lock-free variant are forced step by step on the real registry through guarded hooks (a "
+             "controller parks threads at linearization points), free-running first-use races of 2-16 threads are recorded with the same hooks, and TLC validates "
+             "every event sequence against the model. sys/ObjPool (lineages under new/use/copy/delete) is model-checked and its interleavings are replayed on pools "
+             "of real objects of 34 families, sequentially and with one thread per object; TLC checks every result against the solo replay of the target's lineage "
+             "and that caller-owned inputs are unchanged.",
+        design_ref="DESIGN.md section 6, C19",
+        note="Trusted: TLC; the hooks (add-only, guarded by PYCRYPTODOME_VERIF, commit 477417ba) are at the linearization points; blocked threads are detected by a timeout "
+             "(a slow thread is only advanced later). Races inside native code are sampled by threaded runs, not enumerated.",
+        technique="TLA+ models of the lazily initialised registry and of object lineages checked exhaustively by TLC (safety and liveness); TLC-generated thread schedules "
+                  "forced on the code through hooks; code->spec trace validation in TLC",
     ),
 }
 
